@@ -19,31 +19,31 @@ def toyTable : List (Entry × List Nat) :=
 def toySer (e : Entry) : List Nat := ((toyTable.find? (fun p => p.1 == e)).map (·.2)).getD [0]
 def toyDe (p : List Nat) : Option Entry := (toyTable.find? (fun q => q.2 == p)).map (·.1)
 
+def demoCfg : Cfg := { prepareTimeoutMs := 5000, maxConcurrent := 100 }
+
 /-- begin, two YES votes (with a rejected duplicate NO in between), commit, crash inside the
     commit's records (byte 68 is inside the first LockRelease record, just after TxComplete), then abort and commit are tried -/
 def demoSteps : List Step :=
   [.begin 1 [0, 1] 100, .lock 1 7, .vote 1 0 (.yes 7) false, .vote 1 0 .no false, .lock 1 8,
-   .vote 1 1 (.yes 8) false, .commit 1, .crash 68 200, .abort 1, .commit 1, .cleanup 99999]
-
-def demoCfg : Cfg := ⟨5000, 100⟩
+   .vote 1 1 (.yes 8) false, .commit 1, .crash 68 200 demoCfg, .abort 1, .commit 1, .cleanup 99999]
 
 /-- the state just before the crash (no crash inside: plain evaluation) -/
 def demoPre : Coord := run Crc32.crc32 toySer toyDe { cfg := demoCfg } (demoSteps.take 7)
 
-theorem demoSteps_split : demoSteps = demoSteps.take 7 ++ (Step.crash 68 200 :: demoSteps.drop 8) := by decide
+theorem demoSteps_split : demoSteps = demoSteps.take 7 ++ (Step.crash 68 200 demoCfg :: demoSteps.drop 8) := by decide
 
 /-- the crash at byte 68 of the 94-byte file keeps 7 of the 10 records (the cut is inside
     LockRelease, after TxComplete) -/
-theorem demo_crash : (step Crc32.crc32 toySer toyDe demoPre (.crash 68 200)).1
+theorem demo_crash : (step Crc32.crc32 toySer toyDe demoPre (.crash 68 200 demoCfg)).1
     = restartLog demoCfg (demoPre.log.take 7) 200 := by
-  rw [step_crash_eq Crc32.crc32 toySer toyDe demoPre 68 200 (by decide)]
+  rw [step_crash_eq Crc32.crc32 toySer toyDe demoPre 68 200 demoCfg (by decide)]
   have : wholeWithin Crc32.crc32 (demoPre.log.map toySer) 68 = 7 := by decide
-  rw [this]; rfl
+  rw [this]
 
 theorem demo_valid : Valid Crc32.crc32 toySer toyDe { cfg := demoCfg } demoSteps := by
   rw [demoSteps_split, Valid_append]
   refine ⟨by decide, ?_⟩
-  show StepOK _ _ _ demoPre _ ∧ Valid _ _ _ (step Crc32.crc32 toySer toyDe demoPre (.crash 68 200)).1 _
+  show StepOK _ _ _ demoPre _ ∧ Valid _ _ _ (step Crc32.crc32 toySer toyDe demoPre (.crash 68 200 demoCfg)).1 _
   refine ⟨by decide, ?_⟩
   rw [demo_crash]
   decide
@@ -52,8 +52,15 @@ theorem demo_run : run Crc32.crc32 toySer toyDe { cfg := demoCfg } demoSteps
     = run Crc32.crc32 toySer toyDe (restartLog demoCfg (demoPre.log.take 7) 200) (demoSteps.drop 8) := by
   conv => lhs; rw [demoSteps_split]
   rw [run_append, run_cons]
-  show run _ _ _ (step Crc32.crc32 toySer toyDe demoPre (.crash 68 200)).1 _ = _
+  show run _ _ _ (step Crc32.crc32 toySer toyDe demoPre (.crash 68 200 demoCfg)).1 _ = _
   rw [demo_crash]
 
+
+/-- the same coordinator with a 40-byte WAL that refuses to grow (`auto_rotate = false`): the four
+    records of begin + three votes (36 bytes) fit, the PhaseChange -> Prepared does not -/
+def demoFullCfg : Cfg := { prepareTimeoutMs := 5000, maxConcurrent := 100, walCap := some 40, autoRotate := false }
+
+/-- ... and with a 40-byte WAL that rotates (`auto_rotate = true`, the default) -/
+def demoRotCfg : Cfg := { prepareTimeoutMs := 5000, maxConcurrent := 100, walCap := some 40, autoRotate := true }
 
 end Neumann.TxWal.Demo
